@@ -764,6 +764,8 @@ fn analyse(h: &History) -> Analysis {
                 obs.push(h.look_obs.get(look_i).cloned().unwrap_or_else(|| "missing".into()));
                 look_i += 1;
             }
+            // events of other properties' hooks (C20's scheduler events) share the log
+            other if other.starts_with("sched.") => {}
             other => unmapped.push(format!("unknown event {}", other)),
         }
     }
